@@ -30,6 +30,13 @@ PROBES = 4
 
 
 # ------------------------------------------------------------------ formatting (same as driver)
+def _release(gate):
+    """let the handler waiting on this gate go on - if it still waits (a gate whose waiter was
+    cancelled, e.g. by a processing timeout that a changed limiter let happen, is cancelled too)"""
+    if not gate.done():
+        gate.set_result(None)
+
+
 def fmt_list(l):
     return '.'.join(str(x) for x in l) if l else '-'
 
@@ -97,7 +104,7 @@ class Rig:
                 if i not in self.hold:
                     self.evs.append('B')
                 else:
-                    self.gate[i].set_result(None)
+                    _release(self.gate[i])
                     if j in self.waiting:
                         self.loop.call_soon(self.task[j].cancel)
                     else:
@@ -106,7 +113,7 @@ class Rig:
                 # set_target(a) and the exit of holder b back to back
                 self.c.set_target(int(a))
                 if int(b) in self.hold:
-                    self.gate[int(b)].set_result(None)
+                    _release(self.gate[int(b)])
                 else:
                     self.evs.append('B')
             self.env.idle()
@@ -119,7 +126,7 @@ class Rig:
             self.task[n] = self.loop.create_task(self.worker(n))
         elif k == 'x':
             if n in self.hold:
-                self.gate[n].set_result(None)
+                _release(self.gate[n])
             else:
                 self.evs.append('B')
         elif k == 'c':
@@ -551,7 +558,7 @@ def run_session_case(env, init, script, kind='rpc'):
         begin()
         orc.pre_exit()
         rig.released += 1
-        rig.gate[i].set_result(None)
+        _release(rig.gate[i])
         end([f'x{i}'])
 
     for step in script:
@@ -636,7 +643,7 @@ def run_throttle_timeout_case(env, case):
     limit = conc.max_concurrent
     stats = dict(timed_out=k - len(started_first), lowered=lowered)
     for i in list(rig.hold):
-        rig.gate[i].set_result(None)          # any first-burst handler that did start may finish
+        _release(rig.gate[i])          # any first-burst handler that did start may finish
     env.idle()
     base = 1000
     rig.feed([(base + j, True) for j in range(m)], False)
@@ -653,7 +660,7 @@ def run_throttle_timeout_case(env, case):
              f'of {m} requests has only {len(rig.hold)} handlers running, {len([w for w in rig.waiting if w >= base])} waiting')
     guard = 0
     while rig.hold and guard < 200:
-        rig.gate[rig.hold[0]].set_result(None)
+        _release(rig.gate[rig.hold[0]])
         env.idle()
         guard += 1
     left = [w for w in rig.waiting if w >= base]
@@ -751,13 +758,13 @@ def run_throttle_order_case(env, case):
         elif st[0] == 'advance':
             env.advance(st[1])
         elif st[0] == 'fin' and rig.hold:
-            rig.gate[rig.hold[0]].set_result(None)
+            _release(rig.gate[rig.hold[0]])
             env.idle()
     guard = 0
     env.advance(case['sleep'] * 2)
     while (rig.hold or rig.waiting) and guard < 200:
         if rig.hold:
-            rig.gate[rig.hold[0]].set_result(None)
+            _release(rig.gate[rig.hold[0]])
         env.advance(case['sleep'] * 2)
         guard += 1
     if rig.waiting:
@@ -837,13 +844,13 @@ def run_coincide_case(env, case):
         # the handlers are released, and the same callback holds the loop up past the deadline of
         # the queued requests: their timeouts are processed right after the handlers' exits
         for i in list(rig.hold)[:case['leave']]:
-            rig.gate[i].set_result(None)
+            _release(rig.gate[i])
         loop._vtime += 2 * eps
     loop.call_at(case['ptimeout'] - eps, release_and_stall)
     env.advance(case['ptimeout'] + 1)
     for i in list(rig.hold):
         if not rig.gate[i].done():
-            rig.gate[i].set_result(None)
+            _release(rig.gate[i])
     env.advance(case['ptimeout'] + 1)
     hit = len([i for i in range(L, L + q) if i not in rig.started_at])
     base, m = 1000, L + 2
@@ -859,7 +866,7 @@ def run_coincide_case(env, case):
              f'{len([w for w in rig.waiting if w >= base])} waiting')
     guard = 0
     while rig.hold and guard < 100:
-        rig.gate[rig.hold[0]].set_result(None)
+        _release(rig.gate[rig.hold[0]])
         env.idle()
         guard += 1
     left = [w for w in rig.waiting if w >= base]
@@ -960,7 +967,7 @@ def run_teardown_case(env, case):
         check(f'after receiving {size} more')
     for _ in range(case['finish_first']):
         if rig.hold:
-            rig.gate[rig.hold[0]].set_result(None)
+            _release(rig.gate[rig.hold[0]])
             env.idle()
             check('after a handler finished')
     stats['ended_running'] = len(rig.hold)
@@ -986,7 +993,7 @@ def run_teardown_case(env, case):
     elif ending == 'refuse':
         conc.set_target(0)
         for i in list(rig.hold):
-            rig.gate[i].set_result(None)
+            _release(rig.gate[i])
             env.idle()
     env.idle()
     check(f'right after {ending}')
@@ -995,7 +1002,7 @@ def run_teardown_case(env, case):
     # whoever is still running may finish now
     for i in list(rig.hold):
         if not rig.gate[i].done():
-            rig.gate[i].set_result(None)
+            _release(rig.gate[i])
     env.idle()
     check(f'after the remaining handlers finished ({ending})')
     env.advance(case['ptimeout'] + 31)
